@@ -55,7 +55,7 @@ def check(ctx):
         }
         missing = [k for k, v in body_has.items() if not v]
         ctx.ob("MPT.finish-covers", c, "the try guarded by the finish callbacks encloses start callbacks, order, state construction and the main loop", not missing, "" if not missing else "outside the try: " + ", ".join(missing))
-        ok_iter = bool(loops) and unparse(loops[0].iter) == "started_cbs"
+        ok_iter = bool(loops) and eqv(loops[0].iter, "started_cbs")
         ctx.ob("MPT.finish-over-started", c, "for ... in started_cbs", ok_iter, "" if ok_iter else f"finish loop ranges over {unparse(loops[0].iter) if loops else '?'}")
         ok_flag = Pat("finish(dsk, state, not succeeded)").match(c) is not None
         ctx.ob("MPT.finish-flag", c, "finish(dsk, state, not succeeded)", ok_flag, "" if ok_flag else f"called as {unparse(c)}")
@@ -72,7 +72,7 @@ def check(ctx):
     fts = calls(ga, "finish_task", nested=False)
     nfail = 0
     for n in walk_no_nested(ga):
-        if isinstance(n, ast.If) and unparse(n.test) == "failed":
+        if isinstance(n, ast.If) and eqv(n.test, "failed"):
             nfail += 1
             hdr = g.node_of(n)
             btrue = [s for s in g.succ[hdr] if g.nodes[s].kind == "branch" and g.nodes[s].label[2] is True]
@@ -100,7 +100,7 @@ def check(ctx):
     # loop variable `failed` is the third component produced by execute_task
     et = mod.func("execute_task")
     rs = returns(et)
-    ok = bool(rs) and all(isinstance(r.value, ast.Tuple) and len(r.value.elts) == 3 and unparse(r.value.elts[2]) == "failed" for r in rs)
+    ok = bool(rs) and all(isinstance(r.value, ast.Tuple) and len(r.value.elts) == 3 and eqv(r.value.elts[2], "failed") for r in rs)
     ctx.ob("TAB.failed-flag", et, "execute_task returns (key, result, failed)", ok)
 
     # ---- (c) execute_task exception discipline
@@ -109,7 +109,7 @@ def check(ctx):
     ctx.floor("task_run_sites", 1)
     for c in runs:
         t, part = try_of(c)
-        hs = [h for h in (t.handlers if t else []) if h.type is None or unparse(h.type) == "BaseException"]
+        hs = [h for h in (t.handlers if t else []) if h.type is None or eqv(h.type, "BaseException")]
         ok = t is not None and part == "body" and bool(hs)
         ctx.ob("EXC.execute-task.catch-all", c, "task(data) under `except BaseException`", ok, "" if ok else "task execution is not protected by a BaseException handler")
         if ok:
@@ -124,7 +124,7 @@ def check(ctx):
     ok = False
     for t in [n for n in walk_no_nested(se) if isinstance(n, ast.Try)]:
         for h in t.handlers:
-            if (h.type is None or unparse(h.type) == "BaseException") and h.name and find(f"M_f.set_exception({h.name})", h):
+            if (h.type is None or eqv(h.type, "BaseException")) and h.name and find(f"M_f.set_exception({h.name})", h):
                 ok = True
     ctx.ob("EXC.sync-executor", se, "except BaseException as e: fut.set_exception(e)", ok)
 
@@ -176,16 +176,16 @@ def check(ctx):
     ok = False
     for c in tcs:
         bases = c.args[1]
-        if isinstance(bases, ast.Tuple) and any(Pat("type(exc)").match(e) is not None for e in bases.elts) and any(unparse(e) == "RemoteException" for e in bases.elts):
+        if isinstance(bases, ast.Tuple) and any(Pat("type(exc)").match(e) is not None for e in bases.elts) and any(eqv(e, "RemoteException") for e in bases.elts):
             ok = True
     ctx.ob("SUB.remote-exception", re_, "type(name, (RemoteException, type(exc)), ...)", ok, "" if ok else "wrapper type does not derive from the original exception type")
     # the wrapper cache must be keyed by the exception *type*: a cached wrapper is only a subclass of
     # type(exc) if the key determines type(exc)
     keys_used = []
     for n in walk_no_nested(re_):
-        if isinstance(n, ast.Subscript) and unparse(n.value) == "exceptions":
+        if isinstance(n, ast.Subscript) and eqv(n.value, "exceptions"):
             keys_used.append((n, inline(n.slice, n, re_)))
-        if isinstance(n, ast.Compare) and len(n.ops) == 1 and isinstance(n.ops[0], (ast.In, ast.NotIn)) and unparse(n.comparators[0]) == "exceptions":
+        if isinstance(n, ast.Compare) and len(n.ops) == 1 and isinstance(n.ops[0], (ast.In, ast.NotIn)) and eqv(n.comparators[0], "exceptions"):
             keys_used.append((n, inline(n.left, n, re_)))
     ctx.count("remote_exception_cache_uses", len(keys_used))
     for n, k in keys_used:
